@@ -2,6 +2,8 @@ package rules
 
 import (
 	"fmt"
+	"go/constant"
+	"go/token"
 	"go/types"
 	"sort"
 	"strings"
@@ -21,6 +23,101 @@ type p2Analysis struct {
 	mut map[*ssa.Function]map[int]string
 	// fields: the set of fields (Type.field) written through the parameter, transitively
 	fields map[*ssa.Function]map[int]map[string]bool
+	// blocks: where (in which basic blocks of f) parameter i is written or handed to a writer
+	blocks map[*ssa.Function]map[int]map[*ssa.BasicBlock]bool
+}
+
+func (pa *p2Analysis) addBlock(f *ssa.Function, i int, b *ssa.BasicBlock) bool {
+	if pa.blocks[f] == nil {
+		pa.blocks[f] = map[int]map[*ssa.BasicBlock]bool{}
+	}
+	if pa.blocks[f][i] == nil {
+		pa.blocks[f][i] = map[*ssa.BasicBlock]bool{}
+	}
+	if pa.blocks[f][i][b] {
+		return false
+	}
+	pa.blocks[f][i][b] = true
+	return true
+}
+
+// deadUnder: the blocks of g that cannot execute when its bool parameter k has the value v
+// (only branches whose condition is that parameter itself, or its negation, are followed).
+func deadUnder(g *ssa.Function, k int, v bool) map[*ssa.BasicBlock]bool {
+	if len(g.Blocks) == 0 || k >= len(g.Params) {
+		return nil
+	}
+	par := g.Params[k]
+	reach := map[*ssa.BasicBlock]bool{g.Blocks[0]: true}
+	work := []*ssa.BasicBlock{g.Blocks[0]}
+	for len(work) > 0 {
+		b := work[len(work)-1]
+		work = work[:len(work)-1]
+		succs := b.Succs
+		if len(b.Instrs) > 0 {
+			if iff, ok := b.Instrs[len(b.Instrs)-1].(*ssa.If); ok && len(b.Succs) == 2 {
+				cond, neg := iff.Cond, false
+				if u, ok := cond.(*ssa.UnOp); ok && u.Op == token.NOT {
+					cond, neg = u.X, true
+				}
+				if cond == ssa.Value(par) {
+					val := v != neg
+					if val {
+						succs = b.Succs[:1]
+					} else {
+						succs = b.Succs[1:]
+					}
+				}
+			}
+		}
+		for _, s := range succs {
+			if !reach[s] {
+				reach[s] = true
+				work = append(work, s)
+			}
+		}
+	}
+	dead := map[*ssa.BasicBlock]bool{}
+	for _, b := range g.Blocks {
+		if !reach[b] {
+			dead[b] = true
+		}
+	}
+	return dead
+}
+
+// excludedByConst: the call passes a constant for a bool parameter of g under which every
+// block of g that writes parameter j is unreachable.
+func (pa *p2Analysis) excludedByConst(g *ssa.Function, j int, args []ssa.Value) bool {
+	bl := pa.blocks[g][j]
+	if len(bl) == 0 {
+		return false
+	}
+	for k, a := range args {
+		c, ok := a.(*ssa.Const)
+		if !ok || k >= len(g.Params) {
+			continue
+		}
+		if bt, ok := g.Params[k].Type().Underlying().(*types.Basic); !ok || bt.Kind() != types.Bool {
+			continue
+		}
+		if c.Value == nil {
+			continue
+		}
+		v := constant.BoolVal(c.Value)
+		dead := deadUnder(g, k, v)
+		all := true
+		for b := range bl {
+			if !dead[b] {
+				all = false
+				break
+			}
+		}
+		if all {
+			return true
+		}
+	}
+	return false
 }
 
 func fieldName(addr ssa.Value) string {
@@ -214,7 +311,7 @@ func (pa *p2Analysis) callRoots(c *ssa.Call, res int, fn *ssa.Function, seen map
 }
 
 func newP2(rc *RC) *p2Analysis {
-	pa := &p2Analysis{a: NewOAnalysis(rc.P), mut: map[*ssa.Function]map[int]string{}, fields: map[*ssa.Function]map[int]map[string]bool{}}
+	pa := &p2Analysis{a: NewOAnalysis(rc.P), mut: map[*ssa.Function]map[int]string{}, fields: map[*ssa.Function]map[int]map[string]bool{}, blocks: map[*ssa.Function]map[int]map[*ssa.BasicBlock]bool{}}
 	set := func(f *ssa.Function, i int, why string) bool {
 		if i < 0 || i >= len(f.Params) {
 			return false
@@ -245,6 +342,9 @@ func newP2(rc *RC) *p2Analysis {
 								if set(fn, i, fmt.Sprintf("store to %s at %s", x.Addr.String(), pa.a.pos(x))) {
 									changed = true
 								}
+								if pa.addBlock(fn, i, b) {
+									changed = true
+								}
 								if pa.addField(fn, i, fieldName(x.Addr)) {
 									changed = true
 								}
@@ -262,6 +362,9 @@ func newP2(rc *RC) *p2Analysis {
 								if j >= len(args) {
 									continue
 								}
+								if pa.excludedByConst(g, j, args) {
+									continue // e.g. RollAxis(…, safe = true): the writing branch cannot run
+								}
 								roots := map[int]bool{}
 								pa.rootParams(args[j], fn, map[ssa.Value]bool{}, roots)
 								if _, isSlice := args[j].Type().Underlying().(*types.Slice); isSlice {
@@ -276,6 +379,9 @@ func newP2(rc *RC) *p2Analysis {
 											w = "via " + g.Name() + " " + w
 										}
 										if set(fn, i, w) {
+											changed = true
+										}
+										if pa.addBlock(fn, i, b) {
 											changed = true
 										}
 										for fld := range pa.fields[g][j] {
